@@ -90,35 +90,86 @@ Qed.
 Print Assumptions compile_scope_correct_stage1a.
 
 (* ------------------------------------------------------------------------------------------ *)
-From YV Require Import ScopeDefs2 ScopeMach2 ScopeComp2 ScopeRel2 ScopeSim2.
+From YV Require Import ScopeDefs2 ScopeMach2 ScopeComp2 ScopeComp3 ScopeRel2 ScopeRel3 ScopeSim3.
 
-(* STAGE 1: blocks (any nesting) + closures over block locals, one function level.
-   Script level: var / assignment / print / expression statements / blocks / `var f = || { body };`
-   Closure bodies: assignments (to captured variables or globals), prints, expression statements, return.
-   Expressions: literals, variables, +, calls f() of closure values.  No parameters, no locals inside bodies,
-   and a lambda's body does not mention the variable the lambda is being assigned to.
-   Captured variables are reached through upvalues while their block is live (open) and after it was left
-   (closed by CloseUpvalue at the scope end); several closures share one variable; writes through one are
-   seen by the others and by the declaring scope. *)
-Theorem compile_scope_correct_stage1 : forall cf p funs fuel st en,
-  forallb stmt3 p = true -> compile_scope cf p = Some funs ->
+(* ---- inclusions between the fragments ---- *)
+Lemma expr3_expr2 : forall e, expr3 e = true -> expr2 e = true.
+Proof.
+  fix IH 1. intros e H. destruct e as [n|x|a b|f l| |v k l]; cbn in H |- *; try discriminate; try reflexivity.
+  - apply andb_prop in H as [H1 H2]. now rewrite (IH _ H1), (IH _ H2).
+  - destruct l; [reflexivity|discriminate].
+Qed.
+
+Lemma expr1_expr2 : forall e, expr1 e = true -> expr2 e = true.
+Proof.
+  fix IH 1. intros e H. destruct e as [n|x|a b|f l| |v k l]; cbn in H |- *; try discriminate; try reflexivity.
+  apply andb_prop in H as [H1 H2]. now rewrite (IH _ H1), (IH _ H2).
+Qed.
+
+Lemma bstmt3_bstmt2 : forall s, bstmt3 s = true -> bstmt2 s = true.
+Proof. intros s H. destruct s as [x e|x e|e|e|l|f ps l|x ps l|i n l|a c t e| | |e|e|l x h|l|v e]; cbn in H |- *; try discriminate; now apply expr3_expr2. Qed.
+
+Lemma forallb_imp : forall (A : Type) (f g : A -> bool), (forall a, f a = true -> g a = true) ->
+  forall l, forallb f l = true -> forallb g l = true.
+Proof.
+  intros A f g H l. induction l as [|a r IH]; [reflexivity|]. cbn. intros H0. apply andb_prop in H0 as [H1 H2].
+  now rewrite (H _ H1), (IH H2).
+Qed.
+
+Lemma stmt3_stmt4 : forall s top, stmt3 s = true -> stmt4 top s = true.
+Proof.
+  fix IH 1. intros s top H. destruct s as [x e|x e|e|e|l|f ps l|x ps l|i n l|a c t e| | |e|e|l x h|l|v e]; cbn in H |- *; try discriminate; try (now apply expr3_expr2).
+  - revert H. generalize l. fix go 1. intros l0 H. destruct l0 as [|a r]; [reflexivity|]. cbn in H |- *.
+    apply andb_prop in H as [H1 H2]. now rewrite (IH _ false H1), (go _ H2).
+  - destruct ps; [|discriminate]. apply andb_prop in H as [H1 H2].
+    rewrite (forallb_imp _ _ _ bstmt3_bstmt2 _ H1), H2. now rewrite orb_true_r.
+Qed.
+
+Lemma stmt1_stmt4 : forall s top, stmt1 s = true -> stmt4 top s = true.
+Proof.
+  fix IH 1. intros s top H. destruct s as [x e|x e|e|e|l|f ps l|x ps l|i n l|a c t e| | |e|e|l x h|l|v e]; cbn in H |- *; try discriminate; try (now apply expr1_expr2).
+  revert H. generalize l. fix go 1. intros l0 H. destruct l0 as [|a r]; [reflexivity|]. cbn in H |- *.
+  apply andb_prop in H as [H1 H2]. now rewrite (IH _ false H1), (go _ H2).
+Qed.
+
+Lemma stmt4_stmt2w : forall s top, stmt4 top s = true -> stmt2w s = true.
+Proof.
+  fix IH 1. intros s top H. destruct s as [x e|x e|e|e|l|f ps l|x ps l|i n l|a c t e| | |e|e|l x h|l|v e]; cbn in H |- *; try discriminate; try exact H.
+  - revert H. generalize l. fix go 1. intros l0 H. destruct l0 as [|a r]; [reflexivity|]. cbn in H |- *.
+    apply andb_prop in H as [H1 H2]. now rewrite (IH _ false H1), (go _ H2).
+  - now apply andb_prop in H as [H1 _].
+Qed.
+
+(* STAGE 1 (general form; one function level).
+   Script level: var / assignment / print / expression statements / blocks (any nesting) /
+     `var f = |params| { body };` / `fun f(params) { body }`.
+   Closure bodies: var declarations, nested blocks (so body locals, scope ends and Pop inside a call frame),
+     assignments (to parameters, body locals, captured variables, globals), prints, expression statements, return.
+   Expressions: literals, variables, +, calls f(args) with arbitrary fragment expressions as arguments.
+   Self reference: `fun f` may call / capture itself (a captured local in a block, a global at script level);
+     `var x = || .. x ..` may mention x at script level (a global then); in a block it may not (there the real
+     resolver skips the uninitialised x and falls through to the global x - notes/C06.md, "Observation").
+   Still one function level: no function definitions inside closure bodies. *)
+Theorem compile_scope_correct_stage1g : forall cf p funs fuel st en,
+  forallb (stmt4 true) p = true -> compile_scope cf p = Some funs ->
   exec_list fuel p [] true s_empty = (st, en, CNorm) ->
   exists n, forall k, Gen.run_funs bk_m cf (n + k) funs = eval_cells_fuel fuel p.
 Proof.
   intros cf p funs fuel st en Hp Hc He.
-  destruct (compile_scope_stage1_shape cf p funs (forallb_stmt3_stmt2 _ Hp) Hc) as (code & L' & fs' & Hcl & Hfuns).
+  destruct (compile_scope_stage1_shape_w cf p funs (forallb_imp _ _ _ (fun s => stmt4_stmt2w s true) _ Hp) Hc)
+    as (code & L' & fs' & Hcl & Hfuns).
   set (fn := List.length fs').
   assert (Hfnlen : List.length funs - 1 = fn) by (rewrite Hfuns, app_length; cbn; unfold fn; lia).
   assert (Hcode : code_of funs fn = (code ++ [INil; IReturn])%list).
   { unfold code_of, fn. rewrite Hfuns, app_nth2 by lia. now rewrite Nat.sub_diag. }
-  destruct (sim2_all cf funs fuel) as (_ & _ & _ & _ & HL).
+  destruct (sim3_all cf funs fuel) as (_ & _ & _ & _ & HL).
   pose proof (MS2_start funs) as HM0. rewrite Hfnlen in HM0.
-  assert (HS0 : STO cf funs s_empty [] [] (cv (m_start bk_c funs)) (cn (m_start bk_c funs)) [] []).
+  assert (HS0 : STO3 cf funs s_empty [] [] (cv (m_start bk_c funs)) (cn (m_start bk_c funs)) [] []).
   { constructor; cbn; [reflexivity|constructor|intros k0 []|intros c Hc0; lia|constructor|reflexivity]. }
   assert (HLR0 : LRB [] [0] [] 0 [mkLocal None (Some 0) false] []) by constructor.
   assert (Hd : depth_le 0 [mkLocal None (Some 0) false]) by (constructor; [cbn; lia|constructor]).
   destruct (HL _ _ _ _ _ _ He Hp _ _ _ _ _ _ Hcl eq_refl Hd ltac:(exists [mkFunc (code ++ [INil; IReturn]) 0 0]; exact Hfuns)
-              _ _ _ HLR0 eq_refl (m_start bk_c funs) fn [] [] [] [INil; IReturn])
+              (fun _ => eq_refl) _ _ _ HLR0 eq_refl (m_start bk_c funs) fn [] [] [] [INil; IReturn])
     as (n1 & m1 & K1 & CL1 & HL1 & G1 & O1 & S1 & M1 & ST1 & LR1 & Len1 & Hcn1 & _).
   { rewrite Hcode. reflexivity. }
   { exact HM0. }
@@ -141,8 +192,30 @@ Proof.
   replace (n1 + 2 + k) with (n1 + 1 + S k) by lia.
   rewrite backend_swap.
   - unfold Gen.run_funs. fold (@run_loop bk_c). rewrite Hrun. unfold eval_cells_fuel. rewrite He.
-    rewrite O3. now rewrite (sto_o _ _ _ _ _ _ _ _ _ ST1).
+    rewrite O3. now rewrite (sto3_o _ _ _ _ _ _ _ _ _ ST1).
   - fold (@run_loop bk_c). rewrite Hrun. exact F3.
+Qed.
+
+Print Assumptions compile_scope_correct_stage1g.
+
+(* STAGE 1 as first proved (no parameters, closure bodies without locals, no self reference): a corollary *)
+Corollary compile_scope_correct_stage1 : forall cf p funs fuel st en,
+  forallb stmt3 p = true -> compile_scope cf p = Some funs ->
+  exec_list fuel p [] true s_empty = (st, en, CNorm) ->
+  exists n, forall k, Gen.run_funs bk_m cf (n + k) funs = eval_cells_fuel fuel p.
+Proof.
+  intros cf p funs fuel st en Hp. apply compile_scope_correct_stage1g.
+  revert Hp. apply forallb_imp. intros s. apply stmt3_stmt4.
+Qed.
+
+(* STAGE 1a is an instance as well (its direct proof above predates the general one and is kept) *)
+Corollary compile_scope_correct_stage1a_from_stage1 : forall cf p funs fuel st en,
+  forallb stmt1 p = true -> compile_scope cf p = Some funs ->
+  exec_list fuel p [] true s_empty = (st, en, CNorm) ->
+  exists n, forall k, Gen.run_funs bk_m cf (n + k) funs = eval_cells_fuel fuel p.
+Proof.
+  intros cf p funs fuel st en Hp. apply compile_scope_correct_stage1g.
+  revert Hp. apply forallb_imp. intros s. apply stmt1_stmt4.
 Qed.
 
 Print Assumptions compile_scope_correct_stage1.
@@ -163,3 +236,22 @@ Example stage1_example_ok :
   eval_cells stage1_example = "12|12|13|13#ok"%string /\
   run_m (mkCfg 256 256 true true false) stage1_example = "12|12|13|13#ok"%string.
 Proof. split; [reflexivity|]. split; [eexists; vm_compute; reflexivity|]. split; vm_compute; reflexivity. Qed.
+
+(* the general fragment: parameters and argument expressions, body locals and a nested block inside a body,
+   a script-level lambda mentioning itself (global), a block-level `fn` capturing itself and a block local,
+   the closure escaping the block and called after the block was left *)
+Definition stage1g_example : prog :=
+  [ SLam 9 [1] [SDecl 2 (EAdd (EVar 1) (ELit 1)); SBlock [SDecl 3 (EVar 9); SAssign 2 (EAdd (EVar 2) (ELit 1))]; SReturn (EVar 2)];
+    SLam 8 [] [SReturn (ELit 0)];
+    SBlock [ SDecl 4 (ELit 10);
+             SFun 5 [1;2] [SDecl 6 (EVar 5); SAssign 4 (EAdd (EVar 4) (EAdd (EVar 1) (EVar 2))); SReturn (EVar 4)];
+             SPrint (ECall 5 [ECall 9 [ELit 1]; EVar 4]);
+             SAssign 8 (EVar 5) ];
+    SPrint (ECall 8 [ELit 1; ECall 9 [ELit 5]]) ].
+
+Example stage1g_example_ok :
+  forallb (stmt4 true) stage1g_example = true /\ forallb stmt3 stage1g_example = false /\
+  (exists funs, compile_scope (mkCfg 256 256 true true false) stage1g_example = Some funs) /\
+  eval_cells stage1g_example = "23|31#ok"%string /\
+  run_m (mkCfg 256 256 true true false) stage1g_example = "23|31#ok"%string.
+Proof. split; [reflexivity|]. split; [reflexivity|]. split; [eexists; vm_compute; reflexivity|]. split; vm_compute; reflexivity. Qed.
